@@ -388,11 +388,12 @@ type Caps struct {
 	Defaults       bool
 	ListsInLists   bool
 	Int64          bool
-	NoEnums        bool // struct-backed Reflect cannot read an unset string-typed enum field
-	ValueLists     bool // some slice lists hold struct values instead of pointers
-	ChoiceDefaults bool // choices may name a default case
-	Embeds         bool // struct-backed nodeutil.Node: some fields are promoted from an embedded struct
-	ConvSlices     bool // some int32 leaf-lists are []int64 fields
+	NoEnums        bool  // struct-backed Reflect cannot read an unset string-typed enum field
+	ValueLists     bool  // some slice lists hold struct values instead of pointers
+	ChoiceDefaults bool  // choices may name a default case
+	Embeds         bool  // struct-backed nodeutil.Node: some fields are promoted from an embedded struct
+	ConvSlices     bool  // some int32 leaf-lists are []int64 fields
+	Fixture        *Node // the store holds fixed Go types: schemas are seeded sub-schemas of this one
 }
 
 func FullCaps() Caps {
@@ -631,6 +632,9 @@ func (n *Node) IsKeyOf(l *Node) bool {
 // Generate draws a module from the stream. opts.mustChoice forces at least
 // one choice, mustList at least one list.
 func Generate(r *kit.Rng, caps Caps, name string, mustChoice, mustList bool) *Node {
+	if caps.Fixture != nil {
+		return subSchema(r, caps, name)
+	}
 	for {
 		g := &gen{r: r, caps: caps}
 		m := &Node{Kind: Module, Name: name}
@@ -691,4 +695,56 @@ func AddWhens(r *kit.Rng, m *Node) {
 			prev = c
 		}
 	})
+}
+
+// subSchema draws a sub-schema of caps.Fixture: every non-key member is
+// dropped with a probability drawn per run; a choice survives with at least
+// two cases; some leaves get a default.
+func subSchema(r *kit.Rng, caps Caps, name string) *Node {
+	drop := r.Pick3(0, 2, 4) // of 10
+	var cp func(n *Node) *Node
+	cp = func(n *Node) *Node {
+		c := *n
+		c.Parent = nil
+		c.Children = nil
+		for _, ch := range n.Children {
+			isKey := false
+			for _, k := range n.Keys {
+				if k == ch.Name {
+					isKey = true
+				}
+			}
+			if ch.Kind == Choice && !caps.Choices {
+				continue
+			}
+			if !isKey && ch.Kind != Case && r.Chance(drop, 10) {
+				continue
+			}
+			x := cp(ch)
+			if x.Kind == Case && len(x.Children) == 0 {
+				continue
+			}
+			if x.Kind == Choice && len(x.Children) < 2 {
+				continue
+			}
+			if x.Kind == Leaf && !isKey && caps.Defaults && r.Chance(1, 4) {
+				inCase := n.Kind == Case
+				if !inCase {
+					switch x.Type {
+					case "string":
+						x.Default = r.Pick([]string{"dflt", "zz", "d0"})
+					case "int32", "int64":
+						x.Default = fmt.Sprint(r.Range(1, 99))
+					case "enum":
+						x.Default = x.Enums[r.Intn(len(x.Enums))]
+					}
+				}
+			}
+			c.Children = append(c.Children, x)
+		}
+		return &c
+	}
+	m := cp(caps.Fixture)
+	m.Name = name
+	return m.Link()
 }
